@@ -10,7 +10,6 @@ CONSTANTS
   SizeFrom = "pub"
 INVARIANTS
   TypeOK
-  InTreeIsAllTiles
   ToolIsDeletable
   RemovedDeletable
   OnlyDeletions
